@@ -73,7 +73,7 @@ void algebraic_interval_restore(const lp_variable_list_t* var_list, lp_dyadic_in
   for (i = 0; i < var_list->list_size; ++ i) {
     lp_variable_t x_i = var_list->list[i];
     const lp_value_t* x_i_value = lp_assignment_get_value(m, x_i);
-    if (x_i_value->type == LP_VALUE_ALGEBRAIC && !x_i_value->value.a.I.is_point) {
+    if (x_i_value->type == LP_VALUE_ALGEBRAIC && !x_i_value->value.a.I.is_point && !cache[i].is_point) {
       lp_algebraic_number_restore_interval_const(&x_i_value->value.a, cache + i);
     }
     lp_dyadic_interval_destruct(cache + i);
